@@ -6,4 +6,6 @@ let table : (string * (z list -> z list)) list = [
   ("route", run_route);
   ("dotdict", run_dotdict);
   ("codec", run_codec);
+  ("engine", run_engine);
+  ("regex", run_regex);
 ]
